@@ -635,6 +635,16 @@ impl Session<'_> {
             });
             new_cell_with(new_state)
         };
+        // The store now knows about this session under its current id.
+        // Record it, so that a later `sync` (e.g. the one performed by `finalize`)
+        // doesn't try to rename or create the very same record a second time.
+        let record_exists = matches!(self.server_state.get(), Some(Unchanged { .. }));
+        self.id = match self.id {
+            CurrentSessionId::ToBeRenamed { new, .. } => CurrentSessionId::Existing(new),
+            CurrentSessionId::NewlyGenerated(id) if record_exists => CurrentSessionId::Existing(id),
+            CurrentSessionId::NewlyGenerated(id) => CurrentSessionId::NewlyGenerated(id),
+            CurrentSessionId::Existing(id) => CurrentSessionId::Existing(id),
+        };
         Ok(())
     }
 
